@@ -43,7 +43,7 @@ ARROW = '→'
 
 
 def plan(tier, seed):
-    n = 160 if tier == 'quick' else 4800
+    n = 320 if tier == 'quick' else 4800
     kinds = ['valid', 'valid', 'invalid', 'valid', 'service', 'valid', 'invalid', 'shipped']
     return [{'idx': i, 'kind': kinds[i % len(kinds)]} for i in range(n)]
 
